@@ -100,7 +100,14 @@ def gen_ops(rng, typ, order, U, nops, allow_delete=True):
         elif kind == "refill" and allow_delete:
             ops += ["D %s" % key(c0 + i) for i in range(L)]
             ops += ["I %s %s" % (key(c0 + i), val()) for i in rng.sample(range(L), L)]
-    return ops[:nops]
+        # probe around what was just touched: a lost or unreachable key shows up in a Search
+        if kind in ("asc", "desc", "delrun", "mix", "refill") and rng.random() < 0.7:
+            ops += ["S %s" % key(c0 + rng.randint(-L, L)) for _ in range(rng.randint(1, 4))]
+    ops = ops[:nops]
+    # final sweep: every class (or a sample of 80) is searched once
+    sweep = list(range(U)) if U <= 80 else rng.sample(range(U), 80)
+    ops += ["S %s" % key(c) for c in sweep]
+    return ops
 
 
 def gen_seq_cases(seed, ncases, types, orders, scale=1.0):
